@@ -1864,6 +1864,17 @@ func (bc *Blockchain) AddBlock(block *block.Block) error {
 		if expectedH != block.Hash() {
 			return fmt.Errorf("invalid block: hash mismatch: expected %s, got %s", expectedH.StringLE(), block.Hash().StringLE())
 		}
+		if !bc.config.SkipBlockVerification {
+			// Header hash doesn't cover the witness, so it has to be checked for the
+			// block itself even though the header is already known.
+			prevHeader, err := bc.GetHeader(block.PrevHash)
+			if err != nil {
+				return fmt.Errorf("invalid block: previous header %s was not found: %w", block.PrevHash.StringLE(), err)
+			}
+			if err = bc.verifyHeaderWitnesses(&block.Header, prevHeader); err != nil {
+				return fmt.Errorf("invalid block: %w", err)
+			}
+		}
 	}
 	if !bc.config.SkipBlockVerification {
 		merkle := block.ComputeMerkleRoot()
